@@ -207,6 +207,7 @@ func verifLemmaProgress(g *Graph, t *Task) {}
 //@   canary   [success-one-event] !(err == nil && len(ret0) == 1)
 //@   canary   [failure] err == nil
 //@   ensures  [len-bound]      len(ret0) <= 6
+//@   ensures  [allocated]      forall k int :: 0 <= k && k < len(ret0) ==> allocated(ret0[k].Data)
 //@   ensures  [err-no-events]  err != nil ==> len(ret0) == 0
 //@   ensures  [valid-state]    err == nil && !task.IsEpic && validState(task.State) ==> validState(effState(ret0, id, task.State))
 //@   ensures  [transition]     err == nil && !task.IsEpic ==>
@@ -410,13 +411,80 @@ func verifLemmaProgress(g *Graph, t *Task) {}
 //@   ensures [epoch] readEpoch == epoch
 //@   ensures [fresh] ret0 == nil || fresh(ret0)
 //@   modifies ghost readEpoch
+// ---- storage layer: the log file as ghost state (C03, C04, C13) ----
+// logWrites counts write(2) calls on the log; tailTorn says the log ends in a partial line (no final newline);
+// tmpStage follows the temp file of a rewrite: 0 none, 1 created/truncated, 2 every byte handed to the kernel,
+// 3 fsynced. A process can die between any two system calls: what matters is therefore how many calls there are
+// and in which order (one write per command; temp file durable before it is renamed over the log).
+//@ ghost logWrites int
+//@ ghost tailTorn bool
+//@ ghost tmpStage int
+//@ spec endsNL(b []byte) bool = len(b) > 0 && b[len(b) - 1] == 10
+
+//@ func os.OpenFile
+//@   trusted open(2): returns a file or an error; O_TRUNC|O_CREATE (flags 577) starts a temp file, O_APPEND (flags 1089) changes no content
+//@   ensures [one-of] (ret0 == nil) != (ret1 == nil)
+//@   ensures [stage] tmpStage == ite(ret1 == nil && arg1 == 577, 1, old(tmpStage))
+//@   modifies ghost tmpStage
+//@ func os.Open
+//@   trusted open(2) read-only: changes nothing
+//@   ensures [one-of] (ret0 == nil) != (ret1 == nil)
+//@   modifies nothing
+//@ func (*os.File).Close
+//@   trusted close(2): changes no content
+//@   ensures [true] true
+//@   modifies nothing
+//@ func (*os.File).Write
+//@   trusted write(2) under the io.Writer contract: without an error every byte was written; a failed write may leave a partial line behind
+//@   ensures [count] logWrites == old(logWrites) + 1
+//@   ensures [range] 0 <= ret0 && ret0 <= len(arg1)
+//@   ensures [full] ret1 == nil ==> ret0 == len(arg1) && tailTorn == (old(tailTorn) || !endsNL(arg1))
+//@   modifies ghost logWrites, ghost tailTorn
+//@ func (*os.File).Sync
+//@   trusted fsync(2): makes the file's content durable; a temp file whose bytes were all written becomes durable
+//@   ensures [stage] tmpStage == ite(ret == nil && old(tmpStage) == 2, 3, old(tmpStage))
+//@   modifies ghost tmpStage
+//@ func bufio.NewWriter
+//@   trusted allocates a buffered writer on the file
+//@   ensures [fresh] ret != nil && fresh(ret)
+//@   modifies nothing
+//@ func (*bufio.Writer).Write
+//@   trusted buffers (and possibly writes through) bytes of the temp file
+//@   ensures [range] 0 <= ret0 && ret0 <= len(arg1) && (ret1 == nil ==> ret0 == len(arg1))
+//@   modifies nothing
+//@ func (*bufio.Writer).Flush
+//@   trusted hands every buffered byte to the kernel; only then is the temp file complete
+//@   ensures [stage] tmpStage == ite(ret == nil && old(tmpStage) == 1, 2, old(tmpStage))
+//@   modifies ghost tmpStage
+//@ func os.Rename
+//@   trusted rename(2) replaces the log atomically: the path holds the complete old or the complete new file at every instant
+//@   requires [temp-durable] tmpStage == 3
+//@   ensures [stage] ret == nil ==> tmpStage == 0 && !tailTorn
+//@   ensures [fail] ret != nil ==> tmpStage == old(tmpStage) && tailTorn == old(tailTorn)
+//@   modifies ghost tmpStage, ghost tailTorn
+
+//@ func writeAll
+//@   requires [file] w != nil
+//@   ensures [one-write] logWrites <= old(logWrites) + 1 && (len(data) == 0 ==> logWrites == old(logWrites))
+//@   ensures [whole] ret == nil ==> tailTorn == (old(tailTorn) || (len(data) > 0 && !endsNL(data)))
+//@   modifies ghost logWrites, ghost tailTorn
+//@ loop 0 for
+//@   invariant [progress] (data == atentry(data) && logWrites == old(logWrites) && tailTorn == old(tailTorn)) ||
+//@        (len(data) == 0 && len(atentry(data)) > 0 && logWrites == old(logWrites) + 1 && tailTorn == (old(tailTorn) || !endsNL(atentry(data))))
+
 //@ func appendEvents
-//@   trusted appends one JSON line per event with O_APPEND; I/O faults excluded (a failing call is assumed to have written nothing)
 //@   requires [ex] lk == 2
 //@   requires [same-epoch] readEpoch == epoch
-//@   ensures [ok] ret == nil ==> logv == old(logv) + 1 && commits == old(commits) + 1 && appended == events
-//@   ensures [fail] ret != nil ==> logv == old(logv) && commits == old(commits) && appended == old(appended)
-//@   modifies ghost logv, ghost commits, ghost appended
+//@   ensures [single-write] logWrites <= old(logWrites) + 1
+//@   ensures [whole-lines] ret == nil ==> tailTorn == old(tailTorn)
+//@   ensures [no-glue] ret == nil && len(events) > 0 ==> !old(tailTorn)
+//@   assume  [ok] ret == nil ==> logv == old(logv) + 1 && commits == old(commits) + 1 && appended == events
+//@   assume  [fail] ret != nil ==> logv == old(logv) && commits == old(commits) && appended == old(appended)
+//@   canary  [writes] !(ret == nil && logWrites == old(logWrites) + 1)
+//@   modifies ghost logv, ghost commits, ghost appended, ghost logWrites, ghost tailTorn, ghost tmpStage
+//@ loop 0 range events
+//@   invariant [buffer] (lines == nil || fresh(lines)) && (len(lines) == 0 || lines[len(lines) - 1] == 10) && (index > 0 ==> len(lines) > 0)
+//@   invariant [untouched] logWrites == old(logWrites) && tailTorn == old(tailTorn)
 
 //@ func loadGraph
 //@   ensures [wf] err == nil ==> wfMaps(ret0) && wfDeps(ret0) && wfTasks(ret0) && tombExcluded(ret0)
@@ -441,7 +509,7 @@ func verifLemmaProgress(g *Graph, t *Task) {}
 //@        dec_StateEvent(content(appended[1].Data)).ID == chosen.ID && dec_StateEvent(content(appended[1].Data)).NewState == "doing"
 //@   ensures [effect] ret == nil ==> effState(appended, chosen.ID, chosen.State) == "doing" &&
 //@        effClaim(appended, chosen.ID, chosen.ClaimedBy) == agentID
-//@   modifies cell chosen, cell now, ghost logv, ghost commits, ghost appended, ghost readEpoch
+//@   modifies cell chosen, cell now, ghost logv, ghost commits, ghost appended, ghost logWrites, ghost tailTorn, ghost tmpStage, ghost readEpoch
 
 // ---- output channel (C16) ----
 //@ ghost stdoutJSON int
@@ -462,7 +530,7 @@ func verifLemmaProgress(g *Graph, t *Task) {}
 //@   ensures [one-commit] commits <= old(commits) + 1
 //@   ensures [json-one-value] opts.JSON && ret == nil ==> stdoutJSON == old(stdoutJSON) + 1 && stdoutText == old(stdoutText)
 //@   ensures [json-error-quiet] opts.JSON && ret != nil ==> stdoutJSON <= old(stdoutJSON) + 1 && stdoutText == old(stdoutText)
-//@   modifies ghost lk, ghost epoch, ghost blocking, ghost fsWrites, ghost fsExists, ghost logv, ghost commits, ghost appended, ghost readEpoch
+//@   modifies ghost lk, ghost epoch, ghost blocking, ghost fsWrites, ghost fsExists, ghost logv, ghost commits, ghost appended, ghost logWrites, ghost tailTorn, ghost tmpStage, ghost readEpoch
 //@   modifies ghost stdoutJSON, ghost stdoutText, ghost stderrText
 
 // ---- the set path (C06, C10, C02) ----
@@ -484,7 +552,7 @@ func verifLemmaProgress(g *Graph, t *Task) {}
 //@   ensures [text] ret == nil ==> effTitle(appended, id, task.Title) == ite(has(updates, "title"), trimSpace(updates["title"]), task.Title) &&
 //@        effBody(appended, id, task.Body) == ite(has(updates, "body"), updates["body"], task.Body)
 //@   ensures [quiet] quiet ==> stdoutText == old(stdoutText)
-//@   modifies ghost logv, ghost commits, ghost appended, ghost readEpoch, ghost stdoutText
+//@   modifies ghost logv, ghost commits, ghost appended, ghost logWrites, ghost tailTorn, ghost tmpStage, ghost readEpoch, ghost stdoutText
 //@ loop 0 range remainingUpdates
 //@   invariant [fresh] unknown == nil || fresh(unknown)
 
@@ -542,7 +610,7 @@ func verifLemmaProgress(g *Graph, t *Task) {}
 //@   ensures [acyclic-step] ret == nil && eventType == "link" && ranked(graph) ==>
 //@        (forall f string, x string :: edge(graph, f, x) || (f == from && x == to) ==>
 //@            rerank(hasCycle_visited, f, absDiff(rankOf(to), rankOf(from)) + 1) > rerank(hasCycle_visited, x, absDiff(rankOf(to), rankOf(from)) + 1))
-//@   modifies ghost logv, ghost commits, ghost appended, ghost readEpoch
+//@   modifies ghost logv, ghost commits, ghost appended, ghost logWrites, ghost tailTorn, ghost tmpStage, ghost readEpoch
 
 //@ spec sectionFrame() bool = lk == 0 && blocking == old(blocking)
 
@@ -553,7 +621,7 @@ func verifLemmaProgress(g *Graph, t *Task) {}
 //@   ensures [fail-unchanged] ret != nil ==> logv == old(logv) && commits == old(commits)
 //@   ensures [one-commit] commits <= old(commits) + 1
 //@   ensures [committed] ret == nil ==> commits == old(commits) + 1 && logv == old(logv) + 1
-//@   modifies ghost lk, ghost epoch, ghost blocking, ghost fsWrites, ghost fsExists, ghost logv, ghost commits, ghost appended, ghost readEpoch
+//@   modifies ghost lk, ghost epoch, ghost blocking, ghost fsWrites, ghost fsExists, ghost logv, ghost commits, ghost appended, ghost logWrites, ghost tailTorn, ghost tmpStage, ghost readEpoch
 
 //@ func buildSequenceEdges
 //@   ensures [count] len(order) >= 2 ==> len(ret) == len(order) - 1
@@ -574,7 +642,7 @@ func verifLemmaProgress(g *Graph, t *Task) {}
 //@   canary  [two-commits] !(ret == nil && commits == old(commits) + 2)
 //@   ensures [json-one-value] opts.JSON && ret == nil ==> stdoutJSON == old(stdoutJSON) + 1 && stdoutText == old(stdoutText)
 //@   ensures [json-error-quiet] opts.JSON && ret != nil ==> stdoutJSON == old(stdoutJSON) && stdoutText == old(stdoutText)
-//@   modifies ghost lk, ghost epoch, ghost blocking, ghost fsWrites, ghost fsExists, ghost logv, ghost commits, ghost appended, ghost readEpoch
+//@   modifies ghost lk, ghost epoch, ghost blocking, ghost fsWrites, ghost fsExists, ghost logv, ghost commits, ghost appended, ghost logWrites, ghost tailTorn, ghost tmpStage, ghost readEpoch
 //@   modifies ghost stdoutJSON, ghost stdoutText, ghost stderrText
 //@ loop 0 range edges
 //@   invariant [progress] lk == 0 && blocking == old(blocking) && commits == old(commits) + index && logv == old(logv) + index && index <= len(edges)
@@ -618,7 +686,7 @@ func verifLemmaProgress(g *Graph, t *Task) {}
 //@        dec_NewTaskEvent(content(appended[0].Data)).Body == body
 //@   ensures [reply-is-truth] ret == nil ==> output.ID == id && output.State == "todo" && output.Title == title && output.Body == body &&
 //@        output.EpicID == ite(isEpic, "", epicID) && output.Kind == ite(isEpic, "epic", "task")
-//@   modifies cell output, ghost logv, ghost commits, ghost appended, ghost readEpoch
+//@   modifies cell output, ghost logv, ghost commits, ghost appended, ghost logWrites, ghost tailTorn, ghost tmpStage, ghost readEpoch
 
 //@ func createTaskWithDir
 //@   requires [unlocked] lk == 0
@@ -629,7 +697,7 @@ func verifLemmaProgress(g *Graph, t *Task) {}
 //@   ensures [committed] err == nil ==> commits == old(commits) + 1 && logv == old(logv) + 1
 //@   ensures [reply] err == nil ==> ret0.State == "todo" && ret0.Title == title && ret0.Body == body
 //@   ensures [quiet] stdoutJSON == old(stdoutJSON) && stdoutText == old(stdoutText)
-//@   modifies ghost lk, ghost epoch, ghost blocking, ghost fsWrites, ghost fsExists, ghost logv, ghost commits, ghost appended, ghost readEpoch
+//@   modifies ghost lk, ghost epoch, ghost blocking, ghost fsWrites, ghost fsExists, ghost logv, ghost commits, ghost appended, ghost logWrites, ghost tailTorn, ghost tmpStage, ghost readEpoch
 //@ func createTask
 //@   requires [unlocked] lk == 0
 //@   ensures [released] lk == 0
@@ -639,7 +707,7 @@ func verifLemmaProgress(g *Graph, t *Task) {}
 //@   ensures [committed] err == nil ==> commits == old(commits) + 1 && logv == old(logv) + 1
 //@   ensures [reply] err == nil ==> ret0.State == "todo" && ret0.Title == title && ret0.Body == body
 //@   ensures [quiet] stdoutJSON == old(stdoutJSON) && stdoutText == old(stdoutText)
-//@   modifies ghost lk, ghost epoch, ghost blocking, ghost fsWrites, ghost fsExists, ghost logv, ghost commits, ghost appended, ghost readEpoch
+//@   modifies ghost lk, ghost epoch, ghost blocking, ghost fsWrites, ghost fsExists, ghost logv, ghost commits, ghost appended, ghost logWrites, ghost tailTorn, ghost tmpStage, ghost readEpoch
 
 // ---- prune (C09, C02, C10) ----
 //@ func buildPruneItems
@@ -650,7 +718,7 @@ func verifLemmaProgress(g *Graph, t *Task) {}
 //@   invariant [fresh] fresh(items)
 //@ func buildTombstoneEvents
 //@   ensures [count] err == nil ==> len(ret0) == len(ids)
-//@   ensures [each] err == nil ==> (forall i int :: 0 <= i && i < len(ids) ==> ret0[i].Type == "tombstone" &&
+//@   ensures [each] err == nil ==> (forall i int :: 0 <= i && i < len(ids) ==> ret0[i].Type == "tombstone" && allocated(ret0[i].Data) &&
 //@        decOK_TombstoneEvent(content(ret0[i].Data)) && dec_TombstoneEvent(content(ret0[i].Data)).ID == ids[i])
 //@   modifies nothing
 //@ loop 0 range ids
@@ -670,7 +738,7 @@ func verifLemmaProgress(g *Graph, t *Task) {}
 //@   ensures [apply-equals-plan] ret == nil && apply && len(plan.PrunedIDs) > 0 ==> len(appended) == len(plan.PrunedIDs) &&
 //@        (forall i int :: 0 <= i && i < len(plan.PrunedIDs) ==> appended[i].Type == "tombstone" &&
 //@           decOK_TombstoneEvent(content(appended[i].Data)) && dec_TombstoneEvent(content(appended[i].Data)).ID == plan.PrunedIDs[i])
-//@   modifies cell plan, ghost logv, ghost commits, ghost appended, ghost readEpoch
+//@   modifies cell plan, ghost logv, ghost commits, ghost appended, ghost logWrites, ghost tailTorn, ghost tmpStage, ghost readEpoch
 //@ func runPrune
 //@   requires [unlocked] lk == 0
 //@   ensures [released] lk == 0
@@ -679,7 +747,7 @@ func verifLemmaProgress(g *Graph, t *Task) {}
 //@   ensures [one-commit] commits <= old(commits) + 1
 //@   ensures [dry-run-pure] !apply ==> logv == old(logv) && commits == old(commits)
 //@   ensures [quiet] stdoutJSON == old(stdoutJSON) && stdoutText == old(stdoutText)
-//@   modifies ghost lk, ghost epoch, ghost blocking, ghost fsWrites, ghost fsExists, ghost logv, ghost commits, ghost appended, ghost readEpoch
+//@   modifies ghost lk, ghost epoch, ghost blocking, ghost fsWrites, ghost fsExists, ghost logv, ghost commits, ghost appended, ghost logWrites, ghost tailTorn, ghost tmpStage, ghost readEpoch
 
 // ---- results (C20, C10, C02) ----
 //@ func validateResultPath
@@ -704,7 +772,7 @@ func verifLemmaProgress(g *Graph, t *Task) {}
 //@        dec_ResultEvent(content(appended[0].Data)).MtimeAtAttach == evidence.MtimeAtAttach &&
 //@        dec_ResultEvent(content(appended[0].Data)).GitCommitAtAttach == evidence.GitCommitAtAttach &&
 //@        dec_ResultEvent(content(appended[0].Data)).Summary == trimSpace(summary)
-//@   modifies ghost logv, ghost commits, ghost appended, ghost readEpoch
+//@   modifies ghost logv, ghost commits, ghost appended, ghost logWrites, ghost tailTorn, ghost tmpStage, ghost readEpoch
 //@ func writeResultEvent
 //@   requires [unlocked] lk == 0
 //@   ensures [released] lk == 0
@@ -713,7 +781,7 @@ func verifLemmaProgress(g *Graph, t *Task) {}
 //@   ensures [one-commit] commits <= old(commits) + 1
 //@   ensures [committed] ret == nil ==> commits == old(commits) + 1 && logv == old(logv) + 1
 //@   ensures [quiet] stdoutJSON == old(stdoutJSON) && stdoutText == old(stdoutText)
-//@   modifies ghost lk, ghost epoch, ghost blocking, ghost fsWrites, ghost fsExists, ghost logv, ghost commits, ghost appended, ghost readEpoch
+//@   modifies ghost lk, ghost epoch, ghost blocking, ghost fsWrites, ghost fsExists, ghost logv, ghost commits, ghost appended, ghost logWrites, ghost tailTorn, ghost tmpStage, ghost readEpoch
 
 //@ func applySetUpdates
 //@   requires [unlocked] lk == 0
@@ -725,17 +793,28 @@ func verifLemmaProgress(g *Graph, t *Task) {}
 //@   ensures [json-quiet] quiet ==> stdoutText == old(stdoutText)
 //@   ensures [no-json] stdoutJSON == old(stdoutJSON)
 //@   ensures [version-tracks-commits] logv - old(logv) == commits - old(commits) && commits >= old(commits)
-//@   modifies ghost lk, ghost epoch, ghost blocking, ghost fsWrites, ghost fsExists, ghost logv, ghost commits, ghost appended, ghost readEpoch
+//@   modifies ghost lk, ghost epoch, ghost blocking, ghost fsWrites, ghost fsExists, ghost logv, ghost commits, ghost appended, ghost logWrites, ghost tailTorn, ghost tmpStage, ghost readEpoch
 //@   modifies ghost stdoutText, map[string]string at updates
 
 // ---- rewrite primitives and compaction (C05, C02) ----
+//@ func syncDir
+//@   ensures [stage] old(tmpStage) != 2 ==> tmpStage == old(tmpStage)
+//@   modifies ghost tmpStage
+//@ func writeEventsFile
+//@   ensures [durable] ret == nil ==> tmpStage == 3
+//@   ensures [log-untouched] logWrites == old(logWrites) && tailTorn == old(tailTorn)
+//@   modifies ghost tmpStage
+//@ loop 0 range events
+//@   invariant [stage] tmpStage == 1 && file != nil && writer != nil
 //@ func replaceEventsAtomically
-//@   trusted writes a temp file, fsyncs, renames over the log, fsyncs the directory; I/O faults excluded
 //@   requires [ex] lk == 2
 //@   requires [same-epoch] readEpoch == epoch
-//@   ensures [ok] ret == nil ==> logv == old(logv) + 1 && commits == old(commits) + 1 && appended == events
-//@   ensures [fail] ret != nil ==> logv == old(logv) && commits == old(commits) && appended == old(appended)
-//@   modifies ghost logv, ghost commits, ghost appended
+//@   ensures [clean] ret == nil ==> !tailTorn && tmpStage == 0
+//@   ensures [no-append] logWrites == old(logWrites)
+//@   assume  [ok] ret == nil ==> logv == old(logv) + 1 && commits == old(commits) + 1 && appended == events
+//@   assume  [fail] ret != nil ==> logv == old(logv) && commits == old(commits) && appended == old(appended)
+//@   canary  [succeeds] ret != nil
+//@   modifies ghost logv, ghost commits, ghost appended, ghost logWrites, ghost tailTorn, ghost tmpStage, ghost tmpStage, ghost tailTorn
 //@ func appendEventsAtomically
 //@   requires [ex] lk == 2
 //@   requires [same-epoch] readEpoch == epoch
@@ -746,7 +825,7 @@ func verifLemmaProgress(g *Graph, t *Task) {}
 //@   ensures [empty-noop] len(appended) == 0 ==> ret == nil && commits == old(commits) && logv == old(logv)
 //@   ensures [fail] ret != nil ==> logv == old(logv) && commits == old(commits)
 //@   ensures [one-commit] commits <= old(commits) + 1
-//@   modifies ghost logv, ghost commits, ghost appended
+//@   modifies ghost logv, ghost commits, ghost appended, ghost logWrites, ghost tailTorn, ghost tmpStage
 
 //@ func compactEvents
 //@   trusted (for the lock protocol only) the round-trip contract of compaction is the subject of C05
@@ -758,7 +837,7 @@ func verifLemmaProgress(g *Graph, t *Task) {}
 //@   ensures [fail-unchanged] ret != nil ==> logv == old(logv) && commits == old(commits)
 //@   ensures [one-commit] commits <= old(commits) + 1
 //@   ensures [writes-what-it-compacted] ret == nil ==> appended == compacted
-//@   modifies ghost logv, ghost commits, ghost appended, ghost readEpoch
+//@   modifies ghost logv, ghost commits, ghost appended, ghost logWrites, ghost tailTorn, ghost tmpStage, ghost readEpoch
 //@ func RunCompact
 //@   requires [unlocked] lk == 0
 //@   ensures [released] lk == 0
@@ -767,7 +846,7 @@ func verifLemmaProgress(g *Graph, t *Task) {}
 //@   ensures [one-commit] commits <= old(commits) + 1
 //@   ensures [json-one-value] opts.JSON && ret == nil ==> stdoutJSON == old(stdoutJSON) + 1 && stdoutText == old(stdoutText)
 //@   ensures [json-error-quiet] opts.JSON && ret != nil ==> stdoutJSON == old(stdoutJSON) && stdoutText == old(stdoutText)
-//@   modifies ghost lk, ghost epoch, ghost blocking, ghost fsWrites, ghost fsExists, ghost logv, ghost commits, ghost appended, ghost readEpoch
+//@   modifies ghost lk, ghost epoch, ghost blocking, ghost fsWrites, ghost fsExists, ghost logv, ghost commits, ghost appended, ghost logWrites, ghost tailTorn, ghost tmpStage, ghost readEpoch
 //@   modifies ghost stdoutJSON, ghost stdoutText, ghost stderrText
 
 // ---- command entry points (C02, C10, C16) ----
@@ -811,7 +890,7 @@ func verifLemmaProgress(g *Graph, t *Task) {}
 //@   ensures [one-commit] commits <= old(commits) + 1
 //@   ensures [json-one-value] opts.JSON && ret == nil ==> stdoutJSON == old(stdoutJSON) + 1 && stdoutText == old(stdoutText)
 //@   ensures [json-error-quiet] opts.JSON && ret != nil ==> stdoutJSON == old(stdoutJSON) && stdoutText == old(stdoutText)
-//@   modifies ghost lk, ghost epoch, ghost blocking, ghost fsWrites, ghost fsExists, ghost logv, ghost commits, ghost appended, ghost readEpoch
+//@   modifies ghost lk, ghost epoch, ghost blocking, ghost fsWrites, ghost fsExists, ghost logv, ghost commits, ghost appended, ghost logWrites, ghost tailTorn, ghost tmpStage, ghost readEpoch
 //@   modifies ghost stdoutJSON, ghost stdoutText, ghost stderrText
 
 //@ func RunSet
@@ -822,7 +901,7 @@ func verifLemmaProgress(g *Graph, t *Task) {}
 //@   ensures [one-commit] commits <= old(commits) + 1
 //@   ensures [json-one-value] opts.JSON && ret == nil ==> stdoutJSON == old(stdoutJSON) + 1 && stdoutText == old(stdoutText)
 //@   ensures [json-error-at-most-one] opts.JSON && ret != nil ==> stdoutJSON <= old(stdoutJSON) + 1 && stdoutText == old(stdoutText)
-//@   modifies ghost lk, ghost epoch, ghost blocking, ghost fsWrites, ghost fsExists, ghost logv, ghost commits, ghost appended, ghost readEpoch
+//@   modifies ghost lk, ghost epoch, ghost blocking, ghost fsWrites, ghost fsExists, ghost logv, ghost commits, ghost appended, ghost logWrites, ghost tailTorn, ghost tmpStage, ghost readEpoch
 //@   modifies ghost stdoutJSON, ghost stdoutText, ghost stderrText
 
 //@ func RunNewEpic
@@ -833,7 +912,7 @@ func verifLemmaProgress(g *Graph, t *Task) {}
 //@   ensures [one-commit] commits <= old(commits) + 1
 //@   ensures [json-one-value] opts.JSON && ret == nil ==> stdoutJSON == old(stdoutJSON) + 1 && stdoutText == old(stdoutText)
 //@   ensures [json-error-at-most-one] opts.JSON && ret != nil ==> stdoutJSON <= old(stdoutJSON) + 1 && stdoutText == old(stdoutText)
-//@   modifies ghost lk, ghost epoch, ghost blocking, ghost fsWrites, ghost fsExists, ghost logv, ghost commits, ghost appended, ghost readEpoch
+//@   modifies ghost lk, ghost epoch, ghost blocking, ghost fsWrites, ghost fsExists, ghost logv, ghost commits, ghost appended, ghost logWrites, ghost tailTorn, ghost tmpStage, ghost readEpoch
 //@   modifies ghost stdoutJSON, ghost stdoutText, ghost stderrText
 
 //@ func RunNewTask
@@ -844,7 +923,7 @@ func verifLemmaProgress(g *Graph, t *Task) {}
 //@   ensures [one-commit] commits <= old(commits) + 1
 //@   ensures [json-one-value] opts.JSON && ret == nil ==> stdoutJSON == old(stdoutJSON) + 1 && stdoutText == old(stdoutText)
 //@   ensures [json-error-at-most-one] opts.JSON && ret != nil ==> stdoutJSON <= old(stdoutJSON) + 1 && stdoutText == old(stdoutText)
-//@   modifies ghost lk, ghost epoch, ghost blocking, ghost fsWrites, ghost fsExists, ghost logv, ghost commits, ghost appended, ghost readEpoch
+//@   modifies ghost lk, ghost epoch, ghost blocking, ghost fsWrites, ghost fsExists, ghost logv, ghost commits, ghost appended, ghost logWrites, ghost tailTorn, ghost tmpStage, ghost readEpoch
 //@   modifies ghost stdoutJSON, ghost stdoutText, ghost stderrText
 
 //@ func (*TaskInput).ToKeyValueMap
@@ -902,7 +981,7 @@ func verifLemmaProgress(g *Graph, t *Task) {}
 //@   ensures [never-blocks] blocking == old(blocking)
 //@   ensures [read-pure] logv == old(logv) && commits == old(commits)
 //@   ensures [quiet] stdoutJSON == old(stdoutJSON) && stdoutText == old(stdoutText)
-//@   modifies ghost lk, ghost epoch, ghost blocking, ghost fsWrites, ghost fsExists, ghost logv, ghost commits, ghost appended, ghost readEpoch
+//@   modifies ghost lk, ghost epoch, ghost blocking, ghost fsWrites, ghost fsExists, ghost logv, ghost commits, ghost appended, ghost logWrites, ghost tailTorn, ghost tmpStage, ghost readEpoch
 //@ func RunPruneApply
 //@   requires [unlocked] lk == 0
 //@   ensures [released] lk == 0
@@ -910,7 +989,7 @@ func verifLemmaProgress(g *Graph, t *Task) {}
 //@   ensures [fail-unchanged] err != nil ==> logv == old(logv) && commits == old(commits)
 //@   ensures [one-commit] commits <= old(commits) + 1
 //@   ensures [quiet] stdoutJSON == old(stdoutJSON) && stdoutText == old(stdoutText)
-//@   modifies ghost lk, ghost epoch, ghost blocking, ghost fsWrites, ghost fsExists, ghost logv, ghost commits, ghost appended, ghost readEpoch
+//@   modifies ghost lk, ghost epoch, ghost blocking, ghost fsWrites, ghost fsExists, ghost logv, ghost commits, ghost appended, ghost logWrites, ghost tailTorn, ghost tmpStage, ghost readEpoch
 //@ func RunPrune
 //@   requires [unlocked] lk == 0
 //@   ensures [released] lk == 0
@@ -920,7 +999,7 @@ func verifLemmaProgress(g *Graph, t *Task) {}
 //@   ensures [dry-run-pure] !confirm ==> logv == old(logv) && commits == old(commits)
 //@   ensures [json-one-value] opts.JSON && ret == nil ==> stdoutJSON == old(stdoutJSON) + 1 && stdoutText == old(stdoutText)
 //@   ensures [json-error-quiet] opts.JSON && ret != nil ==> stdoutJSON == old(stdoutJSON) && stdoutText == old(stdoutText)
-//@   modifies ghost lk, ghost epoch, ghost blocking, ghost fsWrites, ghost fsExists, ghost logv, ghost commits, ghost appended, ghost readEpoch
+//@   modifies ghost lk, ghost epoch, ghost blocking, ghost fsWrites, ghost fsExists, ghost logv, ghost commits, ghost appended, ghost logWrites, ghost tailTorn, ghost tmpStage, ghost readEpoch
 //@   modifies ghost stdoutJSON, ghost stdoutText, ghost stderrText
 //@ func RunShow
 //@   requires [unlocked] lk == 0
@@ -1231,7 +1310,7 @@ func verifLemmaProgress(g *Graph, t *Task) {}
 //@   canary  [succeeds] ret != nil
 //@   canary  [fails] ret == nil
 //@   canary  [edge-written] !(ret == nil && len(out.Edges) == 2)
-//@   modifies cell out, ghost logv, ghost commits, ghost appended, ghost readEpoch
+//@   modifies cell out, ghost logv, ghost commits, ghost appended, ghost logWrites, ghost tailTorn, ghost tmpStage, ghost readEpoch
 //@ loop 0 range graph.Tasks
 //@   invariant [wf] wfMaps(graph) && freshMaps(graph) && workingIDs != nil && fresh(workingIDs)
 //@   invariant [copied] forall k string :: visited(k) ==> has(workingIDs, k)
@@ -1292,5 +1371,5 @@ func verifLemmaProgress(g *Graph, t *Task) {}
 //@   ensures [json-error-at-most-one] opts.JSON && ret != nil ==> stdoutJSON <= old(stdoutJSON) + 1 && stdoutText == old(stdoutText)
 //@   canary  [succeeds] ret != nil
 //@   canary  [fails] ret == nil
-//@   modifies ghost lk, ghost epoch, ghost blocking, ghost fsWrites, ghost fsExists, ghost logv, ghost commits, ghost appended, ghost readEpoch
+//@   modifies ghost lk, ghost epoch, ghost blocking, ghost fsWrites, ghost fsExists, ghost logv, ghost commits, ghost appended, ghost logWrites, ghost tailTorn, ghost tmpStage, ghost readEpoch
 //@   modifies ghost stdoutJSON, ghost stdoutText, ghost stderrText
